@@ -49,6 +49,7 @@ pub closed spec fn in_own_group(a: A, v: int) -> bool {
 /// Representation invariant over the abstract state.
 pub closed spec fn inv(a: A) -> bool {
     &&& a.tag.len() <= usize::MAX
+    &&& a.next_v >= 0
     &&& a.pers.len() == a.tag.len()
     &&& a.data.len() == a.tag.len()
     &&& a.edges.len() == a.tag.len()
